@@ -89,7 +89,12 @@ def same(a, b):
     x, y = np.ravel(x), np.ravel(y)
     if x.shape != y.shape:
         return False
-    return bool(np.allclose(x, y, rtol=0, atol=TOL * max(1.0, float(np.max(np.abs(y))) if y.size else 1.0)))
+    fin = np.isfinite(np.asarray(y, dtype=float)) if y.size and np.asarray(y).dtype.kind in "fiub" else None
+    scale = float(np.max(np.abs(np.asarray(y, dtype=float)[fin]))) if fin is not None and fin.any() else 1.0
+    try:
+        return bool(np.allclose(x, y, rtol=0, atol=TOL * max(1.0, scale), equal_nan=True))
+    except TypeError:
+        return bool(np.allclose(x, y, rtol=0, atol=TOL * max(1.0, scale)))
 
 
 def srepr(r):
